@@ -9,6 +9,7 @@ package main
 import (
 	"fmt"
 	"math/rand"
+	"os"
 	"strings"
 
 	"github.com/philpearl/avro"
@@ -233,7 +234,27 @@ func driveC14(c *driverCtx) error {
 				docs = append(docs, text)
 			}
 		}
-		_ = si
+		// FileSchema: the same schema embedded in a container file on disk (harness's own container writer)
+		{
+			var sb strings.Builder
+			render(d, c.rng, true, si%3, &sb, 0)
+			path := fmt.Sprintf("%s/fileschema-%d.avro", c.rec.dir, si)
+			os.WriteFile(path, buildContainer([]byte(sb.String()), codecs3[si%3], si%2 == 0, []byte("0123456789abcdef"), nil), 0o644)
+			ev := map[string]any{"op": "schema_parse", "s": s, "text": clipS(sb.String(), 600), "outcome": "ok", "parsed": snode("null", "", "", 0, nil, nil),
+				"marshal": "ok", "remarshalled": s}
+			var sch avro.Schema
+			var err error
+			if p := catch(func() { sch, err = avro.FileSchema(path) }); p != "" {
+				ev["outcome"] = "panic"
+			} else if err != nil {
+				ev["outcome"], ev["err"] = "err", err.Error()
+			} else {
+				ev["parsed"] = projectLibSchema(sch)
+			}
+			os.Remove(path)
+			c.rec.NewCase()
+			c.rec.Emit(fmt.Sprintf("C14|fileschema|%s", nodeStr(s, "k")), ev)
+		}
 	}
 	c.extra["tlc_schemas"] = len(tl)
 	// malformed JSON: every proper prefix, trailing data, unbalanced brackets
